@@ -173,6 +173,14 @@ func loopChecked(m *ServerModel, fi *FuncInfo, param types.Object) (token.Pos, b
 		}
 		elem := info.Defs[rs.Value.(*ast.Ident)]
 		body := rs.Body.List
+		if len(body) == 1 {
+			// if err := checkSafeName(name); err != nil { return ... }
+			if ifs, ok := body[0].(*ast.IfStmt); ok && ifs.Init != nil && ifs.Else == nil {
+				cp := *ifs
+				cp.Init = nil
+				body = []ast.Stmt{ifs.Init, &cp}
+			}
+		}
 		if len(body) != 2 {
 			return token.NoPos, false
 		}
